@@ -55,6 +55,36 @@ def conv_of_term(t, where):
     raise CheckError('UNRECOGNISED: conversion closure %s returns %s' % (cl.path, show(t)))
 
 
+def _fold_option(t, depth=0):
+    """std semantics of the Option combinators a parser split into `fn parse(&str) -> Option<Duration>` plus
+    `parse(s).map(Some).ok_or(val)` ends with, applied to a value whose variant is known on the path:
+    ok_or(Some(v), e) = Ok(v), ok_or(None, e) = Err(e), map(Some(v), Some) = Some(Some(v)), map(None, f) = None;
+    a `?` that left an Option-returning helper early (from_residual) is that helper's None."""
+    t = strip_refs(t)
+    if depth > 6 or not isinstance(t, tuple) or not t:
+        return t
+    mk = lambda variant, adt, ops: ('agg', {'kind': 'adt', 'adt': adt, 'variant': variant}, list(ops))
+    if is_call(t, name='from_residual') and 'option::Option' in t[1]:
+        return mk('None', 'std::option::Option', [])
+    if is_call(t) and t[3] in ('ok_or', 'ok_or_else') and 'option::Option' in t[1] and len(t[2]) == 2:
+        a = _fold_option(t[2][0], depth + 1)
+        if isinstance(a, tuple) and a[:1] == ('agg',) and a[1].get('variant') == 'Some':
+            return mk('Ok', 'std::result::Result', [a[2][0]])
+        if isinstance(a, tuple) and a[:1] == ('agg',) and a[1].get('variant') == 'None':
+            return mk('Err', 'std::result::Result', [t[2][1]])
+        return t
+    if is_call(t, name='map') and 'option::Option' in t[1] and len(t[2]) == 2:
+        a = _fold_option(t[2][0], depth + 1)
+        f = strip_refs(t[2][1])
+        is_some_ctor = isinstance(f, tuple) and show(f).replace(' ', '') in ('fn(std::prelude::v1::Some)', 'fn(std::option::Option::Some)', 'fn(core::option::Option::Some)')
+        if isinstance(a, tuple) and a[:1] == ('agg',) and a[1].get('variant') == 'None':
+            return a
+        if is_some_ctor and isinstance(a, tuple) and a[:1] == ('agg',) and a[1].get('variant') == 'Some':
+            return mk('Some', 'std::option::Option', [mk('Some', 'std::option::Option', [a[2][0]])])
+        return t
+    return t
+
+
 def run(R):
     tonic = R.crate('tonic')
     sp = spec('timeout_units')
@@ -293,7 +323,7 @@ def run(R):
             unit += [chr(v) for k, op, v in cons if op == '==' and is_unit_byte(k, v)]
             refused |= {chr(v) for k, op, v in cons if op == '!=' and is_unit_byte(k, v)}
             refused |= {chr(x) for k, op, v in cons if op == 'notin' and isinstance(v, tuple) for x in v if is_unit_byte(k, x)}
-            val = strip_refs(mirlib.simplify(b.ret_on_path(path)))
+            val = _fold_option(strip_refs(mirlib.simplify(b.ret_on_path(path))))
             if is_call(val, name='from_residual'):
                 continue  # `?` on a failure: an Err row that is not the unknown-unit default
             if not (val and val[0] == 'agg'):
